@@ -450,6 +450,8 @@ def report_violation(ctx: Ctx, what, replay: dict, key=None, no_input=False):
 
 
 def write_evidence(ctx: Ctx, rule, samples, distinct, extra=None, assumptions=None, checker_cmd=None):
+    if getattr(ctx, "replaying", None) is not None:
+        return          # a replay re-runs one recorded run to see whether its violation is still there: it describes no coverage
     pr = ctx.proof or dict(obligations=0, discharged=0, axioms={}, theorems=[])
     cov = dict(
         obligations=pr["obligations"],
